@@ -4,6 +4,8 @@ import (
 	"bytes"
 	"fmt"
 	"os"
+	"runtime"
+	"runtime/debug"
 	"sync"
 
 	zap "github.com/blevesearch/zapx/v16"
@@ -70,6 +72,11 @@ func persistEquiv(c *ctx, sb *zap.SegmentBase, spec sx.V, ndocs uint64, mode uin
 	}
 	seg := s.(*zap.Segment)
 	defer seg.Close()
+	// a holder takes and drops a reference before the segment is queried (index snapshots do)
+	seg.AddRef()
+	if err := seg.DecRef(); err != nil {
+		return "DecRef on the opened segment: " + err.Error()
+	}
 	opened, err := zh.Dump(seg)
 	if err != nil {
 		return "opened segment cannot be read: " + err.Error()
@@ -162,6 +169,12 @@ func checkC04(c *ctx) {
 		return
 	}
 	// a segment larger than 2 MiB: every varint length class of offsets below 2^28 occurs
+	// (garbage collector off and one P from here on, so that the later builds below draw the very
+	// builder object that produced this segment from the pool)
+	oldGC := debug.SetGCPercent(-1)
+	defer debug.SetGCPercent(oldGC)
+	oldP := runtime.GOMAXPROCS(1)
+	defer runtime.GOMAXPROCS(oldP)
 	o := zh.RandOpts(c.R, 36, "big")
 	o.DVMask = 31
 	o.NFields = 3
@@ -179,6 +192,36 @@ func checkC04(c *ctx) {
 	}
 	if bad := persistEquiv(c, sb, spec, uint64(len(b)), 1026, !c.Quick); bad != "" {
 		c.Violation("C04 persist / open equivalence on a segment larger than 2 MiB (36 documents with ~66 KB stored values, doc-value fields)\n"+clip(bad), false)
+		return
+	}
+	// the in-memory segment is still itself after later builds in this process (persisting it
+	// again must give the same bytes as before)
+	// (a segment of many small documents, so that the builder's size estimate for a later small
+	// batch stays below what it kept from this one)
+	var many zh.Batch
+	for i := 0; i < 3000; i++ {
+		many = append(many, zh.Doc{Fields: []zh.Field{zh.IDField(fmt.Sprintf("s%05d", i)),
+			{Name: "body", Stored: true, Typ: 't', Val: c.R.Bytes(400), Len: 1, Toks: []zh.Tok{{Term: fmt.Sprintf("w%d", i%50), Freq: 1}}}}})
+	}
+	sb, _, err = zh.Build(many, 1026)
+	must(err)
+	b = many
+	c.Count("segments_over_1MiB_of_small_documents")
+	before, err := zh.FileBytes(sb)
+	mustH(err)
+	for k := 0; k < 3; k++ {
+		if _, _, err := zh.Build(zh.GenBatch(c.R, zh.RandOpts(c.R, 2+k, "aft")), randMode(c)); err != nil {
+			c.Violation("C04 build failed: "+err.Error(), false)
+			return
+		}
+	}
+	after, err := zh.FileBytes(sb)
+	if err != nil || !bytes.Equal(before, after) {
+		c.Violation(fmt.Sprintf("C04 a segment larger than 1 MiB (3000 small documents) emits different bytes (WriteTo) after three later builds in the same process than before them (err %v): a later build wrote into the segment's memory", err), false)
+		return
+	}
+	if bad := footerCheck(c, after, uint64(len(b)), 1026); bad != "" {
+		c.Violation("C04 large segment after later builds: "+bad, false)
 	}
 }
 
